@@ -118,6 +118,20 @@ PROPS = {
             "note": "Trusted: the reference merge in mon/c17.rs and refmodel::civil.",
         },
     },
+    "C18": {
+        "builds": ["chk"],
+        "rule": ("canonical form: year-months (thorough: all 6 570 978 year-months of -271821-04..+275760-09; quick: 4e5 sampled incl. the limits and the year-format boundaries) x 8 routes "
+                 "(from_str YYYY-MM / YYYY-MM-DD / date-time / own always-text, from_partial with and without a day, with(same fields), PlainDate::to_plain_year_month) compared by ==, compare_iso and "
+                 "all four DisplayCalendar texts with the expected canonical text; limit probes one month outside; month-days: all 12 x 31 (month, day) combinations x both overflow modes x 5 string "
+                 "forms x dates of 5 years x a field record; arithmetic: add/subtract of year/month durations (whole range, limits, weeks/days refused) and until/since for largest year/month vs "
+                 "the C04 model between firsts, plus month rounding with largest = smallest = month. distinct by (year, month) / (month, day) / arithmetic case fingerprint"),
+        "assumptions": ["arithmetic from or onto -271821-04 is not judged: the first of that month is not a representable date and the specification's algorithm (via CalendarDateFromFields) throws there while the property names the month as the limit"],
+        "manifest": {
+            "technique": "runtime monitoring: route-equivalence and canonical-text oracle over all year-months (thorough) and all month-days, whole-month arithmetic model",
+            "text": "Every year-month (thorough tier: the complete finite range) and every month-day is built through every public route and must be ==, compare equal and print byte-identical canonical text under all four calendar display options; only the explicit reference argument may differ. Arithmetic results are compared with exact whole-month arithmetic on (year, month), including refusal of week/day units and the two range limits.",
+            "note": "Trusted: the canonical text writer in mon/c18.rs, refmodel::date for differences.",
+        },
+    },
 }
 
 
